@@ -110,8 +110,21 @@ def op_open_pr(w, op):
         w.ugit('checkout', '-q', '-B', dst, 'origin/' + devs[0])
         w.ugit('push', '-q', 'origin', dst)
     w.ugit('fetch', '-q', '--prune', 'origin', actor=actor)
+    if op.get('base') and op['base'] in heads:
+        # cut from another branch than the destination (a backport shape)
+        base = op['base']
     start = 'origin/' + base
-    if op.get('from') == 'old':
+    same = None
+    if op.get('same_as') is not None:
+        # a second branch carrying the very commits of an earlier PR
+        prs = w.user_prs
+        shas = getattr(w, 'src_commits', {}).get(
+            prs[op['same_as'] % len(prs)]) if prs else None
+        if not shas:
+            return
+        same = shas[-1]
+        start = same
+    if op.get('from') == 'old' and same is None:
         rc, out = w.ugit('rev-parse', '-q', '--verify', start + '~1',
                          check=False)
         if rc == 0:
@@ -121,8 +134,12 @@ def op_open_pr(w, op):
     if rc != 0:
         return
     shas = []
-    for i in range(op.get('ncommits', 1)):
-        shas.append(commit_kind(w, op.get('kind', 'new'), actor))
+    if same is not None:
+        shas = list(w.src_commits[w.user_prs[op['same_as'] %
+                                             len(w.user_prs)]])
+    else:
+        for i in range(op.get('ncommits', 1)):
+            shas.append(commit_kind(w, op.get('kind', 'new'), actor))
     rc, out = w.ugit('push', '-q', 'origin', src, actor=actor, check=False)
     if rc != 0:
         return
